@@ -174,3 +174,37 @@ fold_twin!(fold_i1f7, FixedI8<U7>, i8, 7, true);
 fold_twin!(fold_i0f8, FixedI8<U8>, i8, 8, true);
 fold_twin!(fold_u0f8, FixedU8<U8>, u8, 8, false);
 fold_twin!(fold_u4f4, FixedU8<U4>, u8, 4, false);
+
+// ---- the parsing forwarders of Wrapping<F> (FromStr::from_str, from_str_binary / _octal / _hex): exactly the wrapping parser of F.
+// BOUND: ASCII strings of at most 4 bytes; I4F4 and U4F4.  (The forwarders are also under a Verus contract, generic over F, in unit wrapping;
+// this harness is the counterexample generator and covers a body that falls outside the unit's subset.)
+macro_rules! parse_forwarders {
+    ($name:ident, $Fx:ty) => {
+        #[cfg(kani)]
+        #[kani::proof]
+        #[kani::unwind(8)]
+        pub fn $name() {
+            let bytes: [u8; 4] = kani::any();
+            let len: usize = kani::any();
+            kani::assume(len <= 4);
+            kani::assume(bytes[0] < 128 && bytes[1] < 128 && bytes[2] < 128 && bytes[3] < 128);
+            let s: &str = unsafe { core::str::from_utf8_unchecked(&bytes[..len]) };
+            let which: u8 = kani::any();
+            let (w, e) = match which & 3 {
+                0 => (<Wrapping<$Fx> as core::str::FromStr>::from_str(s), <$Fx>::wrapping_from_str(s)),
+                1 => (Wrapping::<$Fx>::from_str_binary(s), <$Fx>::wrapping_from_str_binary(s)),
+                2 => (Wrapping::<$Fx>::from_str_octal(s), <$Fx>::wrapping_from_str_octal(s)),
+                _ => (Wrapping::<$Fx>::from_str_hex(s), <$Fx>::wrapping_from_str_hex(s)),
+            };
+            match (w, e) {
+                (Ok(a), Ok(b)) => assert!(a.0 == b),
+                (Err(_), Err(_)) => {}
+                _ => assert!(false),
+            }
+            // an out-of-range literal is reachable and must wrap, not fail
+            kani::cover!(which & 3 == 0 && <$Fx>::overflowing_from_str(s).map(|t| t.1).unwrap_or(false));
+        }
+    };
+}
+parse_forwarders!(parse_forwarders_i4f4, FixedI8<U4>);
+parse_forwarders!(parse_forwarders_u4f4, FixedU8<U4>);
